@@ -281,8 +281,8 @@ Section CalmBlocks.
     apply andb_prop in Hs as [Hs1 Hs2]. apply andb_prop in Hc as [Hc1 Hc2]. now rewrite Hx, IH.
   Qed.
 
-  Lemma calm_items tight its : Forall (Forall CM) its ->
-    forallb (fun it => item_safe tight it && forallb (safe_block o) (item_body it)) its = true ->
+  Lemma calm_items its : Forall (Forall CM) its ->
+    forallb (fun it => item_safe it && forallb (safe_block o) (item_body it)) its = true ->
     forallb (fun it => match it with
                        | [] => true
                        | h :: rest => forallb (calm ctx o) (gline h) && forallb gcalm rest
@@ -315,10 +315,10 @@ Section CalmBlocks.
       cbn [md_settled gcalm] in *. now apply calm_seq.
     - rewrite safe_olist in Hs. destruct its as [|i0 its]; [discriminate|].
       cbn [gcalm] in Hc. cbn [md_settled]. change (forallb (item_md_settled ctx dir o) (i0 :: its) = true).
-      now apply (calm_items (negb (is_sparse (i0 :: its)))).
+      now apply calm_items.
     - rewrite safe_blist in Hs. destruct its as [|i0 its]; [discriminate|].
       cbn [gcalm] in Hc. cbn [md_settled]. change (forallb (item_md_settled ctx dir o) (i0 :: its) = true).
-      now apply (calm_items (negb (is_sparse (i0 :: its)))).
+      now apply calm_items.
     - cbn [md_settled gcalm] in *. now apply calm_line.
   Qed.
 
